@@ -2334,6 +2334,18 @@ func RulePW(c *Ctx) {
 							if call, isCall := st.Val.(*ssa.Call); isCall && core.IsFunc(core.Callee(call.Common()), "bandersnatch/fr", "One") {
 								first = true
 							}
+							// result[0] = power, read while the running power still holds its initial One()
+							if ld, isLd := st.Val.(*ssa.UnOp); isLd && ld.Op == token.MUL && okInit && len(outLoop) == 1 && ld.X == outLoop[0].Addr && loopOf(countedLoops(fn), ld.Block()) == nil {
+								clean := true
+								for _, other := range storesInto2(fn, ld.X) {
+									if other != ssa.Instruction(outLoop[0]) && core.CanReach(fn, other, ld) {
+										clean = false
+									}
+								}
+								if clean && core.Precedes(fn, outLoop[0], ld) {
+									first = true
+								}
+							}
 						}
 					}
 				}
@@ -2651,4 +2663,23 @@ func valuesSym(cl *countedLoop, arr ssa.Value) bool {
 		return true
 	}
 	return false
+}
+
+// storesInto2: everything that writes the cell at addr in fn — stores to it and field-element methods with it as
+// receiver.
+func storesInto2(fn *ssa.Function, addr ssa.Value) []ssa.Instruction {
+	var out []ssa.Instruction
+	core.AllInstrs(fn, func(i ssa.Instruction) {
+		switch x := i.(type) {
+		case *ssa.Store:
+			if x.Addr == addr {
+				out = append(out, x)
+			}
+		case *ssa.Call:
+			if f := core.Callee(x.Common()); f != nil && f.Signature.Recv() != nil && len(x.Call.Args) > 0 && x.Call.Args[0] == addr && !gnarkObservers[f.Name()] {
+				out = append(out, x)
+			}
+		}
+	})
+	return out
 }
